@@ -391,7 +391,8 @@ def option_atoms(deck, cel, only=None):
             rng = [f'{lo}:{hi}' for lo, hi in fil.ranges]
             out.append(f'{star}fill={rng[0]}')
             out.extend(rng[1:])
-            out.extend(str(v) for v in fil.array)
+            out.extend(getattr(fil, 'render_array', None)
+                       or [str(v) for v in fil.array])
         else:
             out.append(f'{star}fill={fil.universe}')
         if fil.tr is not None:
